@@ -29,23 +29,184 @@ type c15 struct {
 }
 
 func checkC15(c *Ctx) {
-	c.Rule("C15.R1", "every possibly-true result of a member-collection Similar has passed a member-count equality test (directly, via a length-checking helper, or as a final emptiness test of the unmatched remainder)")
-	c.Rule("C15.R2", "a possibly-true result is produced only after the argument was found to have the receiver's own type")
-	c.Rule("C15.R3", "scalar test is |a-b| < tol per axis (X with X, Y with Y); point lists are compared element-wise over the full index range")
+	c.Rule("C15.R1", "Similar, evaluated in both directions on model pairs for each of the eight types: true for a perturbed copy, also with members reordered and closed rings rotated; false when a vertex is displaced, a member or vertex is added or removed, a line is reversed, or a duplicated member stands against a different one; and always symmetric")
+	c.Rule("C15.R2", "Similar is false for every ordered pair of different geometry types (model evaluation)")
+	c.Rule("C15.R3", "the scalar tolerance test is |a−b| < tol: strict, and bounding both signs of the difference")
 	pk := c.P.Pkg("geom")
 	a := &c15{c: c, info: pk.TypesInfo, summary: map[string]int{}}
-	for _, tn := range geomTypes {
-		m := c.P.Method("geom", tn, "Similar")
-		if m == nil || c.P.Decl(m) == nil {
-			c.Unk("C15.R1", "geom."+tn+".Similar", token.NoPos, "API anchor does not resolve")
+	c15model(c, "C15.R1", "C15.R2", "C15.R3")
+	a.scalarOnly()
+	c.Floor("C15.R1", 8)
+	c.Floor("C15.R2", 1)
+	c.Floor("C15.R3", 1)
+}
+
+// scalarOnly: the arithmetic of the tolerance test itself (the model gives it its meaning and
+// cannot judge it): |a−b| < tol, written with math.Abs or as the conjunction of the two
+// one-sided tests.
+func (a *c15) scalarOnly() {
+	c := a.c
+	pk := c.P.Pkg("geom")
+	n := 0
+	for _, fn := range c.P.RepoFuncs() {
+		if c.P.DeclPkg(fn) != pk {
 			continue
 		}
-		a.method(tn, m)
+		sig := fn.Type().(*types.Signature)
+		if sig.Recv() != nil || sig.Params().Len() != 3 || sig.Results().Len() != 1 {
+			continue
+		}
+		if !isFloat64(sig.Params().At(0).Type()) || !isFloat64(sig.Params().At(1).Type()) || !isFloat64(sig.Params().At(2).Type()) {
+			continue
+		}
+		if rb, ok := sig.Results().At(0).Type().Underlying().(*types.Basic); !ok || rb.Kind() != types.Bool {
+			continue
+		}
+		n++
+		fd := c.P.Decl(fn)
+		name := c.P.FuncName(fn)
+		switch a.toleranceShape(fd) {
+		case "ok":
+			c.OK("C15.R3", name, fd.Pos(), "|a−b| < tol (strict, both signs of the difference bounded)")
+		case "nonstrict":
+			c.Bad("C15.R3", name, fd.Pos(), "the tolerance test is not strict (|a−b| ≤ tol): a vertex displaced by exactly the tolerance is accepted, and with tolerance 0 everything equal compares similar only by accident of ≤")
+		case "onesided":
+			c.Bad("C15.R3", name, fd.Pos(), "only one sign of the difference is bounded: a−b < tol holds for every b far above a, so Similar is not symmetric")
+		default:
+			c.Unk("C15.R3", name, fd.Pos(), "the tolerance test is not of the form math.Abs(a-b) < tol or (a-b < tol && b-a < tol)")
+		}
 	}
-	a.scalar()
-	c.Floor("C15.R1", 6)
-	c.Floor("C15.R2", 8)
-	c.Floor("C15.R3", 3)
+	if n == 0 {
+		c.Unk("C15.R3", "geom#tolerance-test", token.NoPos, "no (float64, float64, float64) bool helper found")
+	}
+}
+
+// toleranceShape classifies the body of a (a, b, tol) bool function.
+func (a *c15) toleranceShape(fd *ast.FuncDecl) string {
+	ps := paramVars(a.info, fd.Type)
+	if len(ps) != 3 || ps[0] == nil || ps[1] == nil || ps[2] == nil {
+		return ""
+	}
+	sc := newFnScope(a.info, fd.Body)
+	var ret *ast.ReturnStmt
+	for _, st := range fd.Body.List {
+		switch x := st.(type) {
+		case *ast.ReturnStmt:
+			ret = x
+		case *ast.AssignStmt, *ast.DeclStmt:
+		default:
+			return ""
+		}
+	}
+	if ret == nil || len(ret.Results) != 1 {
+		return ""
+	}
+	// diff(e): +1 for a-b, -1 for b-a, 0 otherwise; through single-definition locals and unary minus
+	var diff func(e ast.Expr, depth int) int
+	diff = func(e ast.Expr, depth int) int {
+		e = unparen(e)
+		if depth > 4 {
+			return 0
+		}
+		switch x := e.(type) {
+		case *ast.BinaryExpr:
+			if x.Op == token.SUB {
+				l, r := objOf(a.info, x.X), objOf(a.info, x.Y)
+				if l == ps[0] && r == ps[1] {
+					return 1
+				}
+				if l == ps[1] && r == ps[0] {
+					return -1
+				}
+			}
+		case *ast.UnaryExpr:
+			if x.Op == token.SUB {
+				return -diff(x.X, depth+1)
+			}
+		case *ast.Ident:
+			if o := objOf(a.info, x); o != nil {
+				if d := sc.singleDef(o); d != nil {
+					return diff(d, depth+1)
+				}
+			}
+		}
+		return 0
+	}
+	// atom: (sign bounded, strict) for `D < tol`, `tol > D`, with D a difference or math.Abs(difference)
+	type atom struct {
+		sign   int // +1, -1, 2 = absolute value
+		strict bool
+	}
+	parse := func(e ast.Expr) (atom, bool) {
+		b, ok := unparen(e).(*ast.BinaryExpr)
+		if !ok {
+			return atom{}, false
+		}
+		l, r := b.X, b.Y
+		strict := false
+		switch b.Op {
+		case token.LSS:
+			strict = true
+		case token.LEQ:
+		case token.GTR:
+			l, r, strict = r, l, true
+		case token.GEQ:
+			l, r = r, l
+		default:
+			return atom{}, false
+		}
+		if objOf(a.info, r) != ps[2] {
+			return atom{}, false
+		}
+		if call, ok := unparen(l).(*ast.CallExpr); ok && len(call.Args) == 1 && isFuncIn(callee(a.info, call), "math", "Abs") {
+			if diff(call.Args[0], 0) != 0 {
+				return atom{2, strict}, true
+			}
+			return atom{}, false
+		}
+		if d := diff(l, 0); d != 0 {
+			return atom{d, strict}, true
+		}
+		return atom{}, false
+	}
+	var atoms []atom
+	var split func(e ast.Expr) bool
+	split = func(e ast.Expr) bool {
+		e = unparen(e)
+		if b, ok := e.(*ast.BinaryExpr); ok && b.Op == token.LAND {
+			return split(b.X) && split(b.Y)
+		}
+		at, ok := parse(e)
+		if !ok {
+			return false
+		}
+		atoms = append(atoms, at)
+		return true
+	}
+	if !split(ret.Results[0]) {
+		return ""
+	}
+	pos, neg, strict := false, false, true
+	for _, at := range atoms {
+		switch at.sign {
+		case 2:
+			pos, neg = true, true
+		case 1:
+			pos = true
+		case -1:
+			neg = true
+		}
+		if !at.strict {
+			strict = false
+		}
+	}
+	switch {
+	case !(pos && neg):
+		return "onesided"
+	case !strict:
+		return "nonstrict"
+	}
+	return "ok"
 }
 
 // isSliceOfMembers: receiver types whose Similar must check member counts.
